@@ -251,3 +251,10 @@ class _Sub:
 
 SUBCHECKS = {"config": _Sub()}
 REPLAY = {"config": lambda case: explore_config(case).fails}
+
+# results must not depend on which library calls were made earlier in the process (see mc/order.py)
+from .. import order as _order  # noqa: E402
+
+_ORDER = _order.OrderSub("C04", "lie", lambda k: k.split('/')[-1] in ('Ad','ad'))
+SUBCHECKS["order"] = _ORDER
+REPLAY["order"] = _ORDER.replay
